@@ -39,6 +39,11 @@ def _mult_missing(need, have):
     return [k for k, n in c.items() if n > 0]
 
 
+import re as _re
+
+_OWN_VAR = _re.compile(r"^(_var\d+|result\d*)$")
+
+
 def static_counts(tree):
     imports, calls = [], 0
     for node in ast.walk(tree):
@@ -47,8 +52,9 @@ def static_counts(tree):
                 imports.append(("import", node.module, a.name.split(".")[0]))
         elif isinstance(node, ast.Call):
             f = node.func
-            if isinstance(f, ast.Attribute) and f.attr in ("__setstate__", "update"):
-                continue
+            if (isinstance(f, ast.Attribute) and f.attr in ("__setstate__", "update") and isinstance(f.value, ast.Name)
+                    and _OWN_VAR.match(f.value.id)):
+                continue  # fickling's own state-application statements (_varN.__setstate__(...)), not a pickle-chosen callee
             calls += 1
     return imports, calls
 
@@ -334,7 +340,11 @@ def c04_floor(term, out):
     if RANK[sev] < fl:
         kind = _c04_kind(why, fl)
         sig = f"C04|{sev}<{NAME[fl]}|{kind}|{last_call_op(term)}"
-        if kind.startswith("call-builtin-"):
+        if kind.startswith("call-builtin-") and kind.endswith(".__setstate__"):
+            # a builtin *method* named __setstate__ reached by a dotted name: fickling files every X.__setstate__(...) call
+            # under "state application" and exempts it from the call analyses
+            sig = "C04|builtin-method-named-__setstate__-treated-as-state-application"
+        elif kind.startswith("call-builtin-"):
             # a builtin whose name was also imported from a (benign) standard-library module earlier
             name = kind[len("call-builtin-"):]
             if any(ev[0] == "import" and ev[2] == name and ev[1] not in BUILTIN_FAMILY for ev in vm.world.log):
@@ -413,6 +423,26 @@ def c19_total(term, out):
                     f"to_dict()/json.dumps failed: {type(e).__name__}: {e} for {_short(src, 160)}", term.replay(), len(term.data))
         return
     out.outcomes.add(("sev", sev.name))
+    if len(term.data) % 8 == 0:
+        # report written to a path that already exists (fresh temporary file; a file with an earlier report): still an answer
+        import os
+        import tempfile
+
+        fd, jp = tempfile.mkstemp(prefix="vp-c19-", suffix=".json")
+        os.close(fd)
+        try:
+            for round_ in ("empty file", "file with one report"):
+                try:
+                    r2 = check_safety(p, json_output_path=jp)
+                    assert r2.severity == sev
+                except Exception as e:  # noqa: BLE001
+                    out.violate(PROP, f"C19|report-path-exists|{type(e).__name__}",
+                                f"check_safety(json_output_path=<existing {round_}>) raised {type(e).__name__}: {e} for {_short(src, 120)}",
+                                term.replay(), len(term.data))
+                    break
+            out.stats.inc("report_path_runs")
+        finally:
+            os.remove(jp)
     import fickling
 
     from .props.c06 import RawNonSeekable
